@@ -186,11 +186,13 @@ func (c *Config) handleSvcConfigUpdate(svcName string, newCfg *service.Config) {
 	if sw.Endpoints == nil {
 		return
 	}
-	switch oldCfg {
-	case nil:
-		c.emitSvcAddEvent(sw)
-	default:
+	if oldCfg != nil {
 		c.emitSvcConfigEvent(svcName, newCfg)
+	}
+	// no processor exists for a service whose previous config was absent or
+	// unusable: (re)announce the service so that it gets one.
+	if oldCfg == nil || oldCfg.Validate() != nil {
+		c.emitSvcAddEvent(sw)
 	}
 }
 
